@@ -1013,11 +1013,21 @@ fn parse_files0_args(config: &mut Config) -> Result<(), Box<dyn Error>> {
         buffer_split.remove(buffer_split.len() - 1);
     }
 
-    let mut string_segments: Vec<String> = buffer_split
-        .iter()
-        .filter_map(|s| std::str::from_utf8(s).ok())
-        .map(|s| s.to_string())
-        .collect();
+    // Like an operand on the command line, a name that is not valid UTF-8 cannot
+    // be handled: say so instead of leaving the starting point out silently.
+    let mut string_segments: Vec<String> = Vec::with_capacity(buffer_split.len());
+    for s in &buffer_split {
+        match std::str::from_utf8(s) {
+            Ok(s) => string_segments.push(s.to_string()),
+            Err(_) => {
+                return Err(From::from(format!(
+                    "{}: file name is not valid UTF-8: {}",
+                    mode,
+                    String::from_utf8_lossy(s)
+                )));
+            }
+        }
+    }
     // empty starting point checker
     if string_segments.iter().any(|s| s.is_empty()) {
         eprintln!("find: invalid zero-length file name");
